@@ -181,6 +181,15 @@ func nilCollapsing(v ssa.Value, depth int, seen map[ssa.Value]bool) bool {
 	case *ssa.ChangeType:
 		return nilCollapsing(x.X, depth, seen)
 	case *ssa.UnOp:
+		// an element of a slice this function collected (vals = append(vals, copyOf(arg)); ...; db.Set(k, vals[i])):
+		// what was put into the slice
+		if ia, ok := x.X.(*ssa.IndexAddr); ok && x.Op == token.MUL {
+			for _, e := range collectedElements(ia.X, map[ssa.Value]bool{}) {
+				if nilCollapsing(e, depth+1, seen) {
+					return true
+				}
+			}
+		}
 		// *(*[]byte)(unsafe.Pointer(&s)): a reinterpreted string header; the empty string has no data pointer
 		if x.Op == token.MUL {
 			if cv, ok := x.X.(*ssa.Convert); ok {
@@ -2254,4 +2263,42 @@ func crlfPredicate(cond ssa.Value, depth int) bool {
 		}
 	}
 	return any
+}
+
+// collectedElements: the values appended to (or stored into elements of) the local slice v.
+func collectedElements(v ssa.Value, seen map[ssa.Value]bool) []ssa.Value {
+	if v == nil || seen[v] {
+		return nil
+	}
+	seen[v] = true
+	var out []ssa.Value
+	switch x := v.(type) {
+	case *ssa.Phi:
+		for _, e := range x.Edges {
+			out = append(out, collectedElements(e, seen)...)
+		}
+	case *ssa.Slice:
+		out = append(out, collectedElements(x.X, seen)...)
+	case *ssa.Call:
+		if b, ok := x.Call.Value.(*ssa.Builtin); ok && b.Name() == "append" && len(x.Call.Args) == 2 {
+			out = append(out, collectedElements(x.Call.Args[0], seen)...)
+			if e := variadicFirst(x.Call.Args[1]); e != x.Call.Args[1] {
+				out = append(out, e)
+			}
+		}
+	case *ssa.MakeSlice:
+		// elements stored by index
+		if x.Referrers() != nil {
+			for _, r := range *x.Referrers() {
+				if ia, ok := r.(*ssa.IndexAddr); ok && ia.Referrers() != nil {
+					for _, rr := range *ia.Referrers() {
+						if st, ok := rr.(*ssa.Store); ok && st.Addr == ssa.Value(ia) {
+							out = append(out, st.Val)
+						}
+					}
+				}
+			}
+		}
+	}
+	return out
 }
